@@ -51,7 +51,7 @@ def main():
                 k, x = int(parts[1]), int(parts[2])
                 rep["evaluations"] += 1
                 a = pk.KmerGenerator("A", k).to_acgt(x)
-                b = pk.MinimiserGenerator("A", k, k).to_acgt(x)
+                b = pk.MinimiserGenerator("A", k + 3, k).to_acgt(x)  # window and minimiser size differ: m decides
                 if a != parts[3] or b != parts[3]:
                     viol("to-acgt", k, "to_acgt(%d) with k=%d: KmerGenerator gives %r, MinimiserGenerator gives %r, core numeric_to_kmer gives %r" % (x, k, a, b, parts[3]))
                 else:
@@ -67,7 +67,17 @@ def main():
             if tag == "K":
                 k = int(parts[2])
                 exp = parts[3] if len(parts) > 3 else ""
-                got = ",".join("%d:%d" % t for t in pk.KmerGenerator(s, k))
+                g = pk.KmerGenerator(s, k)
+                if rep["evaluations"] % 7 == 0 and exp:
+                    # iterator protocol: iter() hands back the same object; partial consumption then the rest
+                    first = next(g)
+                    rest = list(iter(g))
+                    again = list(g)
+                    got = ",".join("%d:%d" % t for t in [first] + rest)
+                    if iter(g) is not g or again:
+                        viol("iterator-protocol", len(raw), "KmerGenerator(%r, %d): iter() is not the object itself or it yields again after exhaustion (%r)" % (s, k, again[:3]))
+                else:
+                    got = ",".join("%d:%d" % t for t in g)
                 if got != exp:
                     viol("kmer-iterator", len(raw), "KmerGenerator(%r, %d) yields %s, core yields %s" % (s, k, got[:200], exp[:200]))
                 elif exp:
@@ -79,7 +89,16 @@ def main():
             elif tag == "M":
                 w, m = int(parts[2]), int(parts[3])
                 exp = parts[4] if len(parts) > 4 else ""
-                got = ",".join("%d:%d:%d" % t for t in pk.MinimiserGenerator(s, w, m))
+                g = pk.MinimiserGenerator(s, w, m)
+                if rep["evaluations"] % 7 == 0 and exp:
+                    first = next(g)
+                    rest = list(iter(g))
+                    again = list(g)
+                    got = ",".join("%d:%d:%d" % t for t in [first] + rest)
+                    if iter(g) is not g or again:
+                        viol("iterator-protocol", len(raw), "MinimiserGenerator(%r, %d, %d): iter() is not the object itself or it yields again after exhaustion (%r)" % (s, w, m, again[:3]))
+                else:
+                    got = ",".join("%d:%d:%d" % t for t in g)
                 if got != exp:
                     viol("minimiser-iterator", len(raw), "MinimiserGenerator(%r, %d, %d) yields %s, core yields %s" % (s, w, m, got[:200], exp[:200]))
                 elif exp:
